@@ -11,6 +11,9 @@ pub struct SignerSet {
     pub weights: Vec<u128>,
     pub threshold: u128,
     pub nonce: Vec<u8>,
+    /// signer hash to sign over instead of the one computed here: the value the gateway itself
+    /// reports for the registered set this one was taken (or derived) from
+    pub claimed: Option<Vec<u8>>,
 }
 
 pub struct Keys {
@@ -88,7 +91,7 @@ pub fn rand_set(rng: &mut Rng, nkeys: usize) -> SignerSet {
         3 => weights[0],
         _ => 1 + (rng.next() as u128) % total,
     };
-    SignerSet { keys: idx, weights, threshold, nonce: rng.bytes(32) }
+    SignerSet { keys: idx, weights, threshold, nonce: rng.bytes(32), claimed: None }
 }
 
 #[derive(Clone)]
@@ -133,7 +136,7 @@ pub enum Slot {
 impl Gw {
     /// proof bytes for `set` over (tag, raw) with the given slot fillings; emits `note sig` lines
     pub fn proof(&self, rng: &mut Rng, sink: &mut Sink, set: &SignerSet, tag: u8, raw: &[u8], slots: &[Slot]) -> Vec<u8> {
-        let sh = set.hash(&self.keys);
+        let sh = set.claimed.clone().unwrap_or_else(|| set.hash(&self.keys));
         let d = digest(&self.domain, &sh, tag, raw);
         let mut out = set.enc(&self.keys);
         out.extend(u32be(slots.len()));
@@ -275,6 +278,26 @@ impl Gw {
         }
     }
 
+    /// the signer hash the gateway itself reports for an epoch (what a signer in the field signs over)
+    pub fn impl_hash(&self, sink: &mut Sink, epoch: usize) -> Option<Vec<u8>> {
+        let out = self.query(sink, "signerHashByEpoch", &[nat(epoch as u128)]);
+        if !out.starts_with("ok") {
+            return None;
+        }
+        let p = out.find("r=")?;
+        let v = out[p + 2..].split_whitespace().next()?;
+        let h = hex::decode(v.split(',').next()?).ok()?;
+        if h.len() == 32 { Some(h) } else { None }
+    }
+    /// pick a registered set; now and then sign over the hash the gateway reports for it
+    pub fn pick_registered(&self, rng: &mut Rng, sink: &mut Sink, latest: bool) -> SignerSet {
+        let i = if latest { self.sets.len() - 1 } else { rng.below(self.sets.len() as u64) as usize };
+        let mut s = self.sets[i].clone();
+        if rng.chance(1, 3) {
+            s.claimed = self.impl_hash(sink, i + 1);
+        }
+        s
+    }
     pub fn tx(&self, sink: &mut Sink, from: &[u8], func: &str, a: &[Vec<u8>]) -> String {
         sink.exec(&format!("tx {} {} {} 0 - {}", hex::encode(from), hex::encode(&self.addr), func, args(a)))
     }
@@ -378,7 +401,8 @@ pub fn gen(rng: &mut Rng, n: usize, sink: &mut Sink, focus: &str) {
                 if rng.chance(1, 30) && !raw.is_empty() {
                     raw.pop(); // malformed batch
                 }
-                let set = if gw.sets.is_empty() || rng.chance(1, 20) { rand_set(rng, 6) } else { rng.pick(&gw.sets).clone() }; // sometimes an unregistered set
+                let set = if gw.sets.is_empty() || rng.chance(1, 20) { rand_set(rng, 6) } else { gw.pick_registered(rng, sink, false) }; // sometimes an unregistered set
+                let set = if rng.chance(1, 7) { variant_of(rng, &set, gw.keys.kps.len()) } else { set };
                 let slots = gw.slots(rng, &set);
                 let mut proof = gw.proof(rng, sink, &set, 0, &raw, &slots);
                 if rng.chance(1, 40) {
@@ -405,10 +429,11 @@ pub fn gen(rng: &mut Rng, n: usize, sink: &mut Sink, focus: &str) {
                 let signing = if gw.sets.is_empty() {
                     rand_set(rng, 6)
                 } else if rng.chance(1, 2) {
-                    gw.sets.last().unwrap().clone()
+                    gw.pick_registered(rng, sink, true)
                 } else {
-                    rng.pick(&gw.sets).clone()
+                    gw.pick_registered(rng, sink, false)
                 };
+                let signing = if rng.chance(1, 8) { variant_of(rng, &signing, gw.keys.kps.len()) } else { signing };
                 let slots = gw.slots(rng, &signing);
                 let proof = gw.proof(rng, sink, &signing, 1, &raw, &slots);
                 let caller = if rng.chance(1, 2) { gw.operator.clone() } else { user(rng.below(4) as u8) };
@@ -491,6 +516,45 @@ pub fn gen(rng: &mut Rng, n: usize, sink: &mut Sink, focus: &str) {
     }
 }
 
+/// a registered set with exactly one component altered (threshold, one weight, nonce, membership):
+/// its signatures are consistent with the altered set, which the gateway never registered
+pub fn variant_of(rng: &mut Rng, set: &SignerSet, nkeys: usize) -> SignerSet {
+    let mut s = set.clone();
+    match rng.below(7) {
+        0 => s.threshold = 1,
+        1 => s.threshold = s.threshold.saturating_sub(1).max(1),
+        2 => s.threshold += 1,
+        3 => {
+            if !s.weights.is_empty() {
+                let k = rng.below(s.weights.len() as u64) as usize;
+                s.weights[k] += *rng.pick(&[1u128, 1000]);
+            }
+        }
+        4 => {
+            if !s.nonce.is_empty() {
+                let k = rng.below(s.nonce.len() as u64) as usize;
+                s.nonce[k] ^= 1;
+            }
+        }
+        5 => {
+            if s.keys.len() > 1 {
+                s.keys.pop();
+                s.weights.pop();
+                s.threshold = s.threshold.min(s.weights.iter().sum::<u128>()).max(1);
+            }
+        }
+        _ => {
+            // one more signer (keeps the ascending key order only by luck: both cases are of interest)
+            let k = rng.below(nkeys as u64) as usize;
+            if !s.keys.contains(&k) {
+                s.keys.push(k);
+                s.weights.push(1);
+            }
+        }
+    }
+    s
+}
+
 /// parse our own signer-set encoding back into a mirror (only for sets built from the key table)
 pub fn parse_set(raw: &[u8], keys: &Keys) -> Option<SignerSet> {
     if raw.len() < 4 {
@@ -529,5 +593,5 @@ pub fn parse_set(raw: &[u8], keys: &Keys) -> Option<SignerSet> {
     if p + 32 != raw.len() {
         return None;
     }
-    Some(SignerSet { keys: idx, weights, threshold, nonce: raw[p..].to_vec() })
+    Some(SignerSet { keys: idx, weights, threshold, nonce: raw[p..].to_vec(), claimed: None })
 }
